@@ -275,6 +275,9 @@ class Run:
         self.known_hits.append((finding, what))
 
     def finish(self):
+        if self.write_evidence and not self.cov["model_runs"]:
+            # every full run has an exhaustive TLC part: a run without one lost it somewhere (dead thread, skipped phase)
+            raise Infra("no model run was recorded for %s: the exhaustive part did not run" % self.prop)
         self.cov["distinct_nontrivial"] = max(self.cov.get("distinct_nontrivial", 0), len(self._distinct))
         wall = time.time() - self.t0
         ev = dict(property_id=self.prop, tier=self.tier, seed=self.seed, level=self.level,
